@@ -59,7 +59,7 @@ def swallowed_years(sep):
 
 
 def h_order(order, sep, with_time=False, explicit=True, languages=("en",), locales=None, prefer_locale=None,
-            swallowed=()):
+            swallowed=(), region=None, expect_locale=None):
     parts = parts_for(order, sep, with_time)
 
     def fn():
@@ -78,13 +78,15 @@ def h_order(order, sep, with_time=False, explicit=True, languages=("en",), local
             st["PREFER_LOCALE_DATE_ORDER"] = prefer_locale
         s = tmpl(parts, v)
         dd = C.api(s, languages=list(languages) if languages else None, locales=list(locales) if locales else None,
-                   settings=st)
+                   settings=st, region=region)
         wit.update(v)
         do = dd.date_obj
         if do is None:
             return C.outcome(False, wit, "none")
         ok = z3.And(C.dt_is(do, v["Y"], v["m"], v["d"], v.get("H", 0), v.get("T", 0)), do.tzinfo is None,
                     dd.period == "day")
+        if expect_locale is not None:
+            ok = z3.And(ok, z3.BoolVal(getattr(dd.locale, "shortname", dd.locale) == expect_locale))
         return C.outcome(ok, wit, "parsed")
     return fn
 
@@ -152,6 +154,16 @@ def tasks(tier, seed):
             regional += g if len(g) <= 3 else [g[(seed + j * 7) % len(g)] for j in range(2)]
     for lang, loc, o in regional:
         add("locale-order:%s:%s" % (loc, o), {"order": o, "sep": "/", "explicit": False, "languages": None, "locales": [loc]})
+    # the same locales selected as language + region (numeric UN M.49 regions included)
+    via = [(lang, loc, o) for lang, loc, o in regional if loc.startswith(lang + "-")]
+    numeric = [t for t in via if t[1].rsplit("-", 1)[1].isdigit()]
+    rest = [t for t in via if t not in numeric]
+    if quick:
+        rest = [rest[(seed * 5 + 3 * j) % len(rest)] for j in range(min(4, len(rest)))] if rest else []
+    for lang, loc, o in numeric + rest:
+        add("region-order:%s+%s:%s" % (lang, loc[len(lang) + 1:], o), {"order": o, "sep": "/", "explicit": False,
+                                                                      "languages": [lang], "region": loc[len(lang) + 1:],
+                                                                      "expect_locale": loc})
     return out
 
 
@@ -166,8 +178,8 @@ def build_spec(task, viol):
         st["PREFER_LOCALE_DATE_ORDER"] = a["prefer_locale"]
     return {"task": task["name"], "witness": w, "clock": C.clock_from_witness(w),
             "call": {"string": render(parts, w), "languages": a.get("languages", ["en"]), "locales": a.get("locales"),
-                     "settings": st},
-            "expect": [w["Y"], w["m"], w["d"], w.get("H", 0), w.get("T", 0)]}
+                     "settings": st, "region": a.get("region")},
+            "expect": [w["Y"], w["m"], w["d"], w.get("H", 0), w.get("T", 0)], "expect_locale": a.get("expect_locale")}
 
 
 def native_check(spec):
@@ -180,7 +192,12 @@ def native_check(spec):
         return {"violates": True, "detail": "%s raised %s" % (desc, res["exception"])}
     got = res["date_obj"]
     bad = got is None or got.tzinfo is not None or _dt.datetime(*got.timetuple()[:6]) != exp or res["period"] != "day"
-    return {"violates": bad, "detail": "%s -> %r, expected %r" % (desc, got, exp)}
+    loc = getattr(res.get("locale"), "shortname", res.get("locale"))
+    if not bad and spec.get("expect_locale") and loc != spec["expect_locale"]:
+        bad = True
+    return {"violates": bad, "detail": "%s region=%r -> %r (locale %s), expected %r%s" % (
+        desc, spec["call"].get("region"), got, loc, exp,
+        (" with locale %s" % spec["expect_locale"]) if spec.get("expect_locale") else "")}
 
 
 def classify_known(spec, verdict, known):
